@@ -98,6 +98,27 @@ package erpc
 //@   property C14
 //@   flags libframe frame-unchecked
 //@   ensures[write-lock-released] sameLocks()
+// ---- C01/C20: the early-call message goes back to the pool exactly once ---------------
+// (a message that is put twice is handed to two later users at the same time, who
+// then see each other's metadata, body and status). send and PreReceive are trusted
+// for their frames here: send returns the pooled message it filled, PreReceive keeps
+// the message it reads into.
+//@ trusted (*session).send
+//@   flags libframe
+//@   modifies allof(type(socket.message)), allof(type(utils.Args)), allelems(type(utils.argsKV)), allelems(type(byte)), allof(type(xfer.XferPipe)), allelems(type(xfer.XferFilter)), s.seq, lockset, ghost.socketWrites, ghost.lastSocketWriteErr
+//@   ensures[locks-restored] sameLocks()
+//@   ensures[returns-the-pooled-message] istype(result.0, type(*socket.message)) && as(result.0, type(*socket.message)) != nil && as(result.0, type(*socket.message)).meta != nil && as(result.0, type(*socket.message)).xferPipe != nil
+//@ trusted (*session).PreReceive
+//@   flags libframe
+//@   modifies allof(type(socket.message)), allof(type(utils.Args)), allelems(type(utils.argsKV)), allelems(type(byte)), allof(type(xfer.XferPipe)), allelems(type(xfer.XferFilter)), lockset
+//@   ensures[locks-restored] sameLocks()
+//@   ensures result != nil
+//@ func (*session).PreCall
+//@   property C01 C20
+//@   flags libframe frame-unchecked
+//@   requires sentinelsIntact()
+//@   ensures[sent-message-given-back-exactly-once] old(s.status) == statusPreparing ==> ghost.msgPuts == old(ghost.msgPuts) + 1
+//@   ensures[nothing-taken-nothing-given-back] old(s.status) != statusPreparing ==> ghost.msgPuts == old(ghost.msgPuts)
 // ghost.lastSocketWriteErr: what the latest socket write returned
 //@ ghost global lastSocketWriteErr iface
 //@ func (*session).write
@@ -662,6 +683,17 @@ package erpc
 //@   ensures[call-fallback-untouched] r.subRouter.unknownCall == old(r.subRouter.unknownCall) && *r.subRouter.unknownCall == old(*r.subRouter.unknownCall)
 
 // the configured name mapper is a function: the same arguments give the same name.
+// the shipped mappers are functions of their two arguments alone: they keep no state
+// between calls (nothing outside the call is written), so the name a handler is
+// registered under does not depend on what was mapped before
+//@ func HTTPServiceMethodMapper
+//@   property C10
+//@   flags libframe
+//@   modifies nothing
+//@ func RPCServiceMethodMapper
+//@   property C10
+//@   flags libframe
+//@   modifies nothing
 // mappedName(a, b) stands for globalServiceMethodMapper(a, b).
 //@ spec fn mappedName(prefix string, name string) string
 //@ iface dynamic:func(prefix string, name string) string
@@ -1035,8 +1067,20 @@ package erpc
 //@   modifies allof(type(session)), allof(type(socket.socket)), lockset, waitgroups, channels, mapviews, ghost.sessionCloses, ghost.postDisconnectRuns
 //@   ensures[index-only-own-entry] @C07 forall h *SessionHub, k iface :: {h.sessions.#gkeys[k]} old(h.sessions.#gvals[k]) != iface(type(*session), s) ==> h.sessions.#gkeys[k] == old(h.sessions.#gkeys[k]) && h.sessions.#gvals[k] == old(h.sessions.#gvals[k])
 
+// the reader's give-up branch completes a reply that is already bound to its call:
+// if reading that frame failed, the failure is recorded in the context first, so the
+// caller does not see OK for a reply that was never decoded (C04)
+//@ trusted (*handlerCtx).handleReply in erpc.(*session).startReadAndHandle
+//@   flags libframe
+//@   modifies ctxRun(c), allof(type(callCmd)), ghost.replyRuns, ghost.pendingReplyLock, channels, mapviews
+//@   requires[lock-handed-over] @C02 c.callCmd != nil ==> held(addr(c.callCmd.mu)) && c.callCmd.#completions == 0 && c.callCmd.sess != nil && c.callCmd.output != nil && c.callCmd.inputMeta != nil
+//@   requires[read-failure-recorded-before-completing-the-call] @C04 err != nil ==> !statOK(c.stat)
+//@   ghostset ghost.replyRuns = old(ghost.replyRuns) + 1
+//@   ghostset ghost.pendingReplyLock = false
+//@   ensures[lock-released] old(c.callCmd) != nil ==> !held(addr(old(c.callCmd).mu))
+//@   ensures[handler-count-untouched] wgcount(addr(c.sess.graceCtxWaitGroup)) == old(wgcount(addr(c.sess.graceCtxWaitGroup)))
 //@ func (*session).startReadAndHandle
-//@   property C06 C03 C02 C08
+//@   property C06 C03 C02 C08 C04
 // C08: a frame that was read is left undispatched only if reading it failed or the
 // session is neither established nor closing actively (replies to calls issued
 // before Close, and calls whose replies are owed, are still read and handled
